@@ -254,7 +254,8 @@ def check_loader(ctx, fi):
         if in_key:
             ctx.ob('R1', fi, f'parameter {p}', True, f'{how}; part of the default cache path')
         elif lossy:
-            what = {'keys': 'only the keys', 'len': 'only the length', 'bool': 'only the truth value', 'type': 'only the type'}.get(lossy[0], lossy[0])
+            what = {'keys': 'only the keys', 'len': 'only the length', 'bool': 'only the truth value', 'type': 'only the type', 'dir': 'only the directory',
+                    'part': 'only a part of the text'}.get(lossy[0], lossy[0])
             ctx.ob('R1', fi, f'parameter {p}', False,
                    f'`{p}` {how}, but {what} of it reach the default cache path: two different values of `{p}` with the same '
                    f'{lossy[0]} share one cache file and the second call returns the trajectory of the first')
@@ -280,8 +281,17 @@ def check_pickle(ctx):
         ctx.ob('R4', fc, fc.node.name, None, 'no pickle.load found in from_cache')
     else:
         ok = res is not None and res.ty == 'unpickled'
-        ctx.ob('R4', fc, loads[0]['node'], True if ok else False,
-               'returns the unpickled object unchanged' if ok else 'the returned value is not the object read by pickle.load')
+        if ok and res.maybe_none:
+            ctx.ob('R4', fc, loads[0]['node'], False, 'from_cache can return None instead of raising: loaders that hand its result straight back '
+                                                      '(`return cls.from_cache(cache)`) then return None and never re-parse the source files')
+        else:
+            ctx.ob('R4', fc, loads[0]['node'], True if ok else False,
+                   'returns the unpickled object unchanged' if ok else 'the returned value is not the object read by pickle.load')
+        # nothing is done to the unpickled object between the load and the return
+        for e in it.events:
+            if e['tag'] == 'extmethod' and e['where'] is not None and e['where'].qualname == fc.qualname and e['recv'] is not None and e['recv'].ty == 'unpickled':
+                ctx.ob('R4', fc, e['node'], False, f'from_cache calls `{e["name"]}` on the unpickled object: the object returned is not the object that was '
+                                                   f'cached (e.g. a trajectory saved in displacement mode comes back converted)')
     tc = ctx.fn(f'{TRAJ}.to_cache')
     it2 = ctx.entry(tc.qualname)
     dumps = ctx.events(it2, 'pickle_dump', tc.qualname)
